@@ -67,13 +67,37 @@ def parseInit (m : Json) (mro : List ClassInfo) : R (Option (ModInit PP)) := do
       | _ => throw "bad property declaration")
     return some ⟨decls, ← parsePVals (← fld i "preset"), ← parsePVals (← fld i "cfg"), ← fldStr i "impl", mro⟩
 
+/-- `pinit` of a parameter in the node JSON: readonly / constant of the class-level object and of the configuration -/
+def parsePInit (a : Json) : R (Option (ParamInit VV)) := do
+  match a.getObjVal? "pinit" with
+  | .error _ => return none
+  | .ok i =>
+    if i.isNull then return none
+    let cr ← fld i "cfgReadonly"
+    return some ⟨← fldBool i "clsReadonly", ← optStr (← fld i "clsConstant"),
+                 ← (if cr.isNull then pure none else some <$> cr.getBool?), ← optStr (← fld i "cfgConstant")⟩
+
+/-- readonly / constant of every parameter DERIVED from class + configuration + finish (where `pinit` is given) -/
+def applyPInits (mod : Module JJ VV) (mj : Json) : R (Module JJ VV) := do
+  let accsJ ← fldArr mj "accs"
+  let mut out : List (Acc JJ VV) := []
+  for (a, aj) in mod.accs.zip accsJ do
+    match a with
+    | .param p =>
+      match ← parsePInit aj with
+      | some i => out := out ++ [.param (p.withInit i)]
+      | none => out := out ++ [a]
+    | .command _ => out := out ++ [a]
+  return { mod with accs := out }
+
 /-- the node with the property part of every module DERIVED from class + configuration (where `init` is given) -/
 def parseNodeInit (t : Tables) (j : Json) : R (Node JJ VV × List (String × ModInit PP)) := do
   let n ← parseNode t j
   let ms ← fldArr j "modules"
   let mut out : Node JJ VV := []
   let mut inits : List (String × ModInit PP) := []
-  for (mod, mj) in n.zip ms do
+  for (mod0, mj) in n.zip ms do
+    let mod ← applyPInits mod0 mj
     match ← parseInit mj mod.mro with
     | none => out := out ++ [mod]
     | some i =>
